@@ -100,8 +100,16 @@ def qlist(xs):
     return "(" + " ".join(qs(fr(x)) for x in xs) + ")"
 
 
-SCALE_BITS = 160
+_SCALE = []
+
+
+def scale():
+    """the fixed-point scale 2^P of the extracted interval arithmetic, asked from the binary itself"""
+    if not _SCALE:
+        r = run_model(["(scale)"])[0]
+        _SCALE.append(int(r))
+    return _SCALE[0]
 
 
 def scaled_to_float(n):
-    return float(Fraction(int(n), 2 ** SCALE_BITS))
+    return float(Fraction(int(n), scale()))
